@@ -12,3 +12,5 @@ require (
 )
 
 replace github.com/blugelabs/ice/v2 => /repo
+
+replace github.com/blugelabs/bluge_segment_api => ./third_party/bluge_segment_api
